@@ -58,7 +58,7 @@ class C01(Check):
     thorough_examples = 60000
     rule = (
         "cases: request texts rendered from generated documents (single request objects and arrays of 0..6 elements aimed at a "
-        "14-method registry: valid calls / notifications, non-binding params, unknown methods, member-alphabet deviations of "
+        "15-method registry: valid calls / notifications, non-binding params, unknown methods, member-alphabet deviations of "
         "jsonrpc/id/method/params, non-object elements, duplicate ids), arbitrary JSON values, containers nested 8..62 levels, integer "
         "literals of 4300/4301/10000 digits spliced at id/params/nested/jsonrpc/method, float literals beyond the double range (1e400) at id/jsonrpc/method, mangled texts (truncation, stray bytes, single "
         "quotes, trailing commas, BOM, unbalanced brackets) and raw non-JSON strings x sync/async dispatcher x max_batch_size "
